@@ -6,7 +6,8 @@ Decided over the table `Generated/ImportGraph.lean`, which harness/translate/imp
 own code writes into xarray's chunk-manager registry, pyproject entry-point groups).  Nodes `0 … M-1` are the
 modules of dask_array (their module-scope code), `M …` the functions/methods.
 
-What is proved (paths of ANY length; `decide` only evaluates the finite closedness checks, the lift to
+What is proved (paths of ANY length; `kernel_decide` (= `decide +kernel` with a cheap failure path, Lemmas/KernelDecide.lean)
+only evaluates the finite closedness checks, the lift to
 unbounded paths is `closed_set_sound` / `backward_closed_sound`, proved in general in Lemmas/Closure.lean):
 * `C26_import_never_registers`  every module reachable through module-scope imports from ANY module (an import
   order only chooses which roots are imported) has no module-scope call into a registering function;
@@ -22,6 +23,7 @@ the fresh-interpreter experiment in harness/props/C26.py is the tie to the runni
 -/
 import DaskArrayModel.Generated.ImportGraph
 import DaskArrayModel.Lemmas.Closure
+import DaskArrayModel.Lemmas.KernelDecide
 namespace Dask.Props.C26
 open Dask.Closure Dask.Generated.ImportGraph
 
@@ -33,19 +35,19 @@ import executes — through module-scope imports, any depth — makes no module-
 registering function. -/
 theorem C26_import_never_registers :
     ∀ m, m < modules.length → ∀ n, Reach importEdges m n → n ∉ moduleScopeCallsIntoRegistering :=
-  importSafe_sound (by decide +kernel)
+  importSafe_sound (by kernel_decide)
 
 /-- Over imports AND calls: importing any module of dask_array cannot reach (by any chain of module-scope
 imports, module-scope calls, nested calls, function-level imports) code that writes xarray's registry. -/
 theorem C26_no_import_reaches_registry :
     ∀ m, m < modules.length → ∀ s ∈ registrySeeds, ¬ Reach graph m s :=
-  noRootReachesSeed_sound (B := canReachSeed) (by decide +kernel)
+  noRootReachesSeed_sound (mask := canReachSeedMask) (by kernel_decide)
 
 /-- The generated set of registering functions is complete (every node that reaches a registry write
 by any path is in it). -/
 theorem C26_registering_complete :
-    ∀ a, ∀ s ∈ registrySeeds, Reach graph a s → a ∈ canReachSeed :=
-  backward_closure_complete (by decide +kernel) (by decide +kernel)
+    ∀ a, ∀ s ∈ registrySeeds, Reach graph a s → inMask canReachSeedMask a = true :=
+  backward_closure_complete (by kernel_decide) (by kernel_decide)
 
 /-- The modules that contain the registry-writing code are import-safe themselves:
 importing `dask_array._xarray` registers nothing (only calling `register()` does). -/
@@ -53,7 +55,7 @@ theorem C26_xarray_module_import_safe :
     ∀ m ∈ seedModules, m < modules.length ∧ ∀ s ∈ registrySeeds, ¬ Reach graph m s := by
   intro m hm
   have hlt : m < modules.length := by
-    have h : seedModules.all (fun m => decide (m < modules.length)) = true := by decide +kernel
+    have h : seedModules.all (fun m => decide (m < modules.length)) = true := by kernel_decide
     exact of_decide_eq_true ((List.all_eq_true.mp h) m hm)
   exact ⟨hlt, C26_no_import_reaches_registry m hlt⟩
 
@@ -79,15 +81,16 @@ example : (reachable [(0, 1), (1, 2)] [0]).contains 2 = true := by decide
 /-- call-graph version: module 0 imports module 1, which at module scope calls function 3, which calls
 the registry-writing function 4 (2 modules, nodes 2.. are functions): the check rejects every candidate
 closure that omits a module … -/
-example : noRootReachesSeed 2 [(0, 1), (1, 3), (3, 4)] [4] [4, 3] = false := by decide
-example : noRootReachesSeed 2 [(0, 1), (1, 3), (3, 4)] [4] [4, 3, 1, 0] = false := by decide
+example : noRootReachesSeed 2 [(0, 1), (1, 3), (3, 4)] [4] (maskOf [4, 3]) = false := by decide
+example : noRootReachesSeed 2 [(0, 1), (1, 3), (3, 4)] [4] (maskOf [4, 3, 1, 0]) = false := by decide
 /-- … and accepts when the call is inside a function nobody calls at import (the opt-in shape:
 `register` = 3 calls `_ensure_registered` = 4; modules 0, 1 only import) -/
-example : noRootReachesSeed 2 [(0, 1), (3, 4), (3, 1)] [4] [4, 3] = true := by decide
+example : noRootReachesSeed 2 [(0, 1), (3, 4), (3, 1)] [4] (maskOf [4, 3]) = true := by decide
 
 /-- the real table is not degenerate: there IS a registry write, and something besides it reaches it
 (`register`), so the theorems above are not vacuous quantifications over an empty seed set -/
-example : registrySeeds ≠ [] ∧ registrySeeds.length < canReachSeed.length := by decide +kernel
+example : registrySeeds ≠ [] ∧ registrySeeds.length < canReachSeed.length ∧
+    canReachSeed.all (fun i => inMask canReachSeedMask i) = true := by kernel_decide
 
 example : "xarray.chunkmanagers" ∈ ["console_scripts", "xarray.chunkmanagers"] := by decide
 
